@@ -115,6 +115,19 @@ class Runner:
       self.pool = self.pools[self.which]
       self.real.y = self.pool[self.yi]
       self._wrote()
+    elif kind in ('bad_x', 'bad_y'):
+      # an assignment the contract rejects (wrong length / fewer than 3 points): ValueError, object state unchanged
+      try:
+        if kind == 'bad_x':
+          self.real.x = np.arange(len(self.pool[self.yi]) + 1 + op[1], dtype=float) * 3.0 + 7.0
+        else:
+          self.real.y = np.array([5.0, 9.0][:op[1] % 3])
+        self.viol.append(('C08:invalid-assignment-accepted', {'op': op}))
+      except ValueError:
+        pass
+      except Exception as e:  # pylint: disable=broad-except
+        self.viol.append(('C08:invalid-assignment-wrong-exception', {'op': op, 'exc': type(e).__name__}))
+      self._wrote()
     elif kind == 'clear_x':
       self.xi = None
       self.real.x = None
@@ -226,6 +239,11 @@ def machine(tier, sink):
     @rule()
     def clear_x(self):
       self.r.step(['clear_x'])
+
+    @rule(kind=st.sampled_from(['bad_x', 'bad_y']), k=st.integers(0, 3))
+    def rejected_assignment(self, kind, k):
+      self.r.step([kind, k])
+      self._after()
 
     @rule(q=st.sampled_from(QUANTS))
     def read(self, q):
